@@ -15,46 +15,75 @@ Lemma text_affinity T :
   end.
 Proof. destruct T; try exact I; now rewrite affinity_char. Qed.
 
-Lemma exact_all C T v dbv :
-  wf v = true -> kind_ok T v = true -> v <> PNone -> guard_engine C T v = true ->
-  from_python C T (fk_unwrap T v) = Ok dbv -> exact C T dbv.
+Lemma exact_mono (R R' : pyval -> pyval -> Prop) C T dbv :
+  (forall a b, R a b -> R' a b) -> exact_gen R C T dbv -> exact_gen R' C T dbv.
 Proof.
-  intros Hwf Hk Hv Hg Hfrom. unfold guard_engine in Hg. rewrite Hfrom in Hg.
-  destruct (needs_oracle T dbv) eqn:Hn; [now apply oracle_exact|]. clear Hg.
+  intros HR H lit s Hl Hs. destruct (H lit s Hl Hs) as [Hr Hc]. split; [|exact Hc].
+  intros c Hc'. destruct (Hr c Hc') as (d & Hd & Hrel). exists d. split; [exact Hd|now apply HR].
+Qed.
+
+(* R = same under the guard kind_ok; R = "anything" without it *)
+Lemma exact_all_gen (R : pyval -> pyval -> Prop) C T v dbv :
+  (forall a b, same a b -> R a b) -> (kind_ok T v = true \/ forall a b, R a b) ->
+  wf v = true -> v <> PNone -> guard_engine C T v = true ->
+  from_python C T (fk_unwrap T v) = Ok dbv -> exact_gen R C T dbv.
+Proof.
+  intros HR Hk Hwf Hv Hg Hfrom. unfold guard_engine in Hg. rewrite Hfrom in Hg.
+  assert (Hup : exact C T dbv -> exact_gen R C T dbv) by (apply exact_mono; exact HR).
+  destruct (needs_oracle T dbv) eqn:Hn; [now apply Hup, oracle_exact|]. clear Hg.
   unfold needs_oracle in Hn. apply orb_false_iff in Hn. destruct Hn as [Hrp Hil].
   pose proof (text_affinity T) as Hta.
   assert (Hunw : forall T', T' <> TForeignKey -> fk_unwrap T' v = v) by (intros T' HT'; destruct T'; try reflexivity; congruence).
   destruct T as [l|l| | | | | | | | | | | |size prec| |size prec q|vals| | | | | ];
     try discriminate Hrp; try (rewrite Hunw in Hfrom by discriminate); cbn [from_python] in Hfrom.
-  - (* String *) destruct (v_string_shape v dbv Hv Hfrom) as [(s & ->)|(b & ->)]; [now apply exact_text|now apply (exact_no_literal C _ _ E_Value)].
-  - (* Unicode *) destruct (v_unicode_shape v dbv Hv Hfrom) as (s & ->). now apply exact_text.
-  - destruct (v_int_shape v dbv Hv Hfrom) as [(z & ->)|(b & ->)]; [apply exact_intcol_int; [reflexivity|]|now apply exact_intcol_bool].
+  - (* String *) apply Hup. destruct (v_string_shape v dbv Hv Hfrom) as [(s & ->)|(b & ->)]; [now apply exact_text|now apply (exact_no_literal C _ _ E_Value)].
+  - (* Unicode *) apply Hup. destruct (v_unicode_shape v dbv Hv Hfrom) as (s & ->). now apply exact_text.
+  - apply Hup. destruct (v_int_shape v dbv Hv Hfrom) as [(z & ->)|(b & ->)]; [apply exact_intcol_int; [reflexivity|]|now apply exact_intcol_bool].
     cbn in Hil. now destruct (int64_ok z).
-  - destruct (v_int_shape v dbv Hv Hfrom) as [(z & ->)|(b & ->)]; [apply exact_intcol_int; [reflexivity|]|now apply exact_intcol_bool].
+  - apply Hup. destruct (v_int_shape v dbv Hv Hfrom) as [(z & ->)|(b & ->)]; [apply exact_intcol_int; [reflexivity|]|now apply exact_intcol_bool].
     cbn in Hil. now destruct (int64_ok z).
-  - destruct (v_int_shape v dbv Hv Hfrom) as [(z & ->)|(b & ->)]; [apply exact_intcol_int; [reflexivity|]|now apply exact_intcol_bool].
+  - apply Hup. destruct (v_int_shape v dbv Hv Hfrom) as [(z & ->)|(b & ->)]; [apply exact_intcol_int; [reflexivity|]|now apply exact_intcol_bool].
     cbn in Hil. now destruct (int64_ok z).
-  - destruct (v_int_shape v dbv Hv Hfrom) as [(z & ->)|(b & ->)]; [apply exact_intcol_int; [reflexivity|]|now apply exact_intcol_bool].
+  - apply Hup. destruct (v_int_shape v dbv Hv Hfrom) as [(z & ->)|(b & ->)]; [apply exact_intcol_int; [reflexivity|]|now apply exact_intcol_bool].
     cbn in Hil. now destruct (int64_ok z).
-  - destruct (v_int_shape v dbv Hv Hfrom) as [(z & ->)|(b & ->)]; [apply exact_intcol_int; [reflexivity|]|now apply exact_intcol_bool].
+  - apply Hup. destruct (v_int_shape v dbv Hv Hfrom) as [(z & ->)|(b & ->)]; [apply exact_intcol_int; [reflexivity|]|now apply exact_intcol_bool].
     cbn in Hil. now destruct (int64_ok z).
-  - (* Bool *) destruct (v_bool_shape v dbv Hv Hfrom) as (b & ->). apply exact_boolcol.
-  - (* DateTime *) destruct v; try congruence; cbn in Hfrom; try discriminate; cbn in Hk; try discriminate.
-    inv Hfrom. destruct tz; [discriminate|]. cbn in Hwf. apply andb_true_iff in Hwf. destruct Hwf.
-    apply exact_datetime; auto.
-  - (* Date *) destruct (v_date_shape v dbv Hv Hwf Hk Hfrom) as (y & m & d & -> & Hd). now apply exact_date.
-  - (* Time *) destruct (v_time_shape v dbv Hv Hwf Hk Hfrom) as (h & mi & s & us & -> & Ht). now apply exact_time.
-  - (* Timestamp *) destruct v; try congruence; cbn in Hfrom; try discriminate; cbn in Hk; try discriminate.
-    inv Hfrom. destruct tz; [discriminate|]. cbn in Hwf. apply andb_true_iff in Hwf. destruct Hwf.
-    apply exact_datetime; auto.
-  - (* DecimalString *) destruct (decstr_shape C size prec q v dbv Hv Hfrom) as (s & ->). now apply exact_text.
-  - (* Enum *) destruct (v_enum_shape vals v dbv Hv Hfrom) as (s & ->). now apply exact_text.
-  - (* BLOB *) destruct (blob_shape C v dbv Hv Hfrom) as (s & ->). now apply exact_text.
-  - (* Pickle *) destruct (pickle_shape C v dbv Hv Hfrom) as (s & ->). now apply exact_text.
-  - (* Uuid *) destruct (uuid_shape C v dbv Hv Hfrom) as (s & ->). now apply exact_text.
-  - (* JSON *) destruct (json_shape C v dbv Hv Hfrom) as (s & ->). now apply exact_text.
-  - (* ForeignKey *) destruct (v_fk_shape v dbv Hv Hfrom) as (z & ->). apply exact_fk. cbn in Hil. now destruct (int64_ok z).
+  - (* Bool *) apply Hup. destruct (v_bool_shape v dbv Hv Hfrom) as (b & ->). apply exact_boolcol.
+  - (* DateTime *) destruct v; try congruence; cbn in Hfrom; try discriminate; inv Hfrom.
+    + (* a date: midnight *) apply Hup. cbn in Hwf. apply exact_datetime; auto.
+    + cbn in Hwf. apply andb_true_iff in Hwf. destruct Hwf as [Hd Ht].
+      destruct Hk as [Hk|Hk].
+      * cbn in Hk. destruct tz; [discriminate|]. apply Hup. apply exact_datetime; auto.
+      * apply exact_gen_datetime; auto.
+  - (* Date *) apply Hup. destruct (v_date_shape v dbv Hv Hwf Hfrom) as (y & m & d & -> & Hd). now apply exact_date.
+  - (* Time *) destruct (v_time_shape v dbv Hv Hwf Hfrom) as (h & mi & s & us & tz & -> & Ht & Htz).
+    destruct Hk as [Hk|Hk].
+    + pose proof (Htz Hk) as E. subst tz. apply Hup. now apply exact_time.
+    + apply exact_gen_time; auto.
+  - (* Timestamp *) destruct v; try congruence; cbn in Hfrom; try discriminate; inv Hfrom.
+    + apply Hup. cbn in Hwf. apply exact_datetime; auto.
+    + cbn in Hwf. apply andb_true_iff in Hwf. destruct Hwf as [Hd Ht].
+      destruct Hk as [Hk|Hk].
+      * cbn in Hk. destruct tz; [discriminate|]. apply Hup. apply exact_datetime; auto.
+      * apply exact_gen_datetime; auto.
+  - (* DecimalString *) apply Hup. destruct (decstr_shape C size prec q v dbv Hv Hfrom) as (s & ->). now apply exact_text.
+  - (* Enum *) apply Hup. destruct (v_enum_shape vals v dbv Hv Hfrom) as (s & ->). now apply exact_text.
+  - (* BLOB *) apply Hup. destruct (blob_shape C v dbv Hv Hfrom) as (s & ->). now apply exact_text.
+  - (* Pickle *) apply Hup. destruct (pickle_shape C v dbv Hv Hfrom) as (s & ->). now apply exact_text.
+  - (* Uuid *) apply Hup. destruct (uuid_shape C v dbv Hv Hfrom) as (s & ->). now apply exact_text.
+  - (* JSON *) apply Hup. destruct (json_shape C v dbv Hv Hfrom) as (s & ->). now apply exact_text.
+  - (* ForeignKey *) apply Hup. destruct (v_fk_shape v dbv Hv Hfrom) as (z & ->). apply exact_fk. cbn in Hil. now destruct (int64_ok z).
 Qed.
+
+Lemma exact_all C T v dbv :
+  wf v = true -> kind_ok T v = true -> v <> PNone -> guard_engine C T v = true ->
+  from_python C T (fk_unwrap T v) = Ok dbv -> exact C T dbv.
+Proof. intros Hwf Hk. apply (exact_all_gen same); [auto|now left|exact Hwf]. Qed.
+
+Lemma readable_all C T v dbv :
+  wf v = true -> v <> PNone -> guard_engine C T v = true ->
+  from_python C T (fk_unwrap T v) = Ok dbv -> readable C T dbv.
+Proof. intros Hwf. apply (exact_all_gen any2); [intros; exact I|right; intros; exact I|exact Hwf]. Qed.
 
 (* the equality query renders the same literal as the write *)
 Lemma query_literal C T v dbv :
@@ -148,11 +177,17 @@ Proof.
   destruct Hc as (c & d & _ & _ & _ & _ & Hf). exact Hf.
 Qed.
 
-(* the equality query, on its own: whenever a write returns, select(col == v) yields the row *)
+(* the equality query, on its own: whenever a write returns, select(col == v) yields the row --
+   also for timezone-aware values (the query renders the same naive literal) *)
 Theorem query_finds_row C T v w var :
-  wf v = true -> kind_ok T v = true -> guard_engine C T v = true ->
+  wf v = true -> guard_engine C T v = true ->
   o_write (run C T v w var) = Ok tt -> o_found (run C T v w var) = Some (Ok true).
 Proof.
-  intros Hwf Hk Hg Hw. pose proof (accept_normalise_or_reject C T v w var Hwf Hk Hg) as Hc.
-  unfold consistent in Hc. rewrite Hw in Hc. destruct Hc as (c & d & _ & _ & _ & _ & Hf). exact Hf.
+  intros Hwf Hg Hw.
+  assert (Hdec : v = PNone \/ v <> PNone) by (destruct v; auto; right; discriminate).
+  destruct Hdec as [->|Hv].
+  - pose proof (run_none C T w var) as Hc. unfold consistent in Hc. rewrite Hw in Hc.
+    destruct Hc as (c & d & _ & _ & _ & _ & Hf). exact Hf.
+  - apply run_found; [assumption| |apply query_literal|assumption].
+    intros dbv Hfrom. now apply (readable_all C T v dbv).
 Qed.
